@@ -154,7 +154,7 @@ Proof. exact load_err_value_lemma. Qed.
 Definition lex_ext : Parser.ext :=
   {| Parser.x_alpha := fun _ => false; Parser.x_alnum := fun _ => false; Parser.x_ws := fun _ => false;
      Parser.x_query := fun _ _ => Some (Parser.QOk 1 (Some 1)); Parser.x_merged := fun _ => Some true;
-     Parser.x_regex := fun _ => Some true |}.
+     Parser.x_regex := fun _ => Some true; Parser.x_print := [] |}.
 Definition lex_q : Checker.query_tables :=
   {| Checker.qt_stanza_names := [[[95;109]; Checker.FULL_MATCH]]; Checker.qt_file_names := [[95;109]; Checker.FULL_MATCH];
      Checker.qt_file_quants := [[Ast.QOne; Ast.QOne]]; Checker.qt_nullable := [] |}.
